@@ -295,7 +295,7 @@ reg(P("C20", "plugins", "c20",
                    "in 0..threshold is accepted)"],
       sig_reset=("threshold", "mock", "recovery"), sig_event=("o", "el", "fwd", "res"),
       mutate=_c20_mutate, design_ref="DESIGN.md §6 C20",
-      technique="TLC exhaustive model checking of CircuitBreaker.tla + TLC trace validation of real executions"))
+      technique="TLC exhaustive model checking of CircuitBreaker.tla, TLC + Apalache (inductive invariant) on the failure counter under concurrency, TLC trace validation of real executions"))
 
 
 def _c15_mutate(rec):
@@ -362,7 +362,7 @@ reg(P("C16", "plugins", "c16",
                    "releases the parked attempts; a fork's success must be followed by the caller's return within 3 s"],
       sig_reset=("mode",), sig_event=("ev",),
       mutate=_c16_mutate, design_ref="DESIGN.md §6 C16",
-      technique="TLC refinement check ClusterImpl => Cluster + TLC trace validation of recorded attempts"))
+      technique="TLC refinement check ClusterImpl => Cluster, TLC + Apalache (inductive invariant) on the shared index under concurrency, TLC trace validation of recorded attempts"))
 
 
 def _c18_mutate(rec):
@@ -403,9 +403,11 @@ def _c17_mutate(rec):
 
 
 _LIM_Q = [("LimiterImplMC", "LimiterImpl_%s.cfg" % c, 600) for c in ("sem1", "sem2", "sem2nt", "rate")] + \
-         [("LimiterImplMC", "LimiterImpl_rate_bug.cfg", 600, "violation"), ("LimiterImplMC", "LimiterImpl_sem_bug_cancel.cfg", 600, "violation")]
+         [("LimiterImplMC", "LimiterImpl_rate_bug.cfg", 600, "violation"), ("LimiterImplMC", "LimiterImpl_sem_bug_cancel.cfg", 600, "violation"), ("SemaphoreInd", "apalache:CInitCode:Init:IndInv:0", 600), ("SemaphoreInd", "apalache:CInitCode:IndInit:IndInv:1", 600),
+          ("SemaphoreInd", "apalache:CInitCode:IndInit:AtMostMax:0", 600), ("SemaphoreInd", "apalache:CInitAdmit:IndInit:IndInv:1", 600, "violation")]
 _LIM_T = [("LimiterImplMC", "LimiterImpl_%s.cfg" % c, 1500) for c in ("sem1", "sem2", "sem2nt", "sem_big", "rate", "rate_big")] + \
-         [("LimiterImplMC", "LimiterImpl_rate_bug.cfg", 600, "violation"), ("LimiterImplMC", "LimiterImpl_sem_bug_cancel.cfg", 600, "violation")]
+         [("LimiterImplMC", "LimiterImpl_rate_bug.cfg", 600, "violation"), ("LimiterImplMC", "LimiterImpl_sem_bug_cancel.cfg", 600, "violation"), ("SemaphoreInd", "apalache:CInitCode:Init:IndInv:0", 600), ("SemaphoreInd", "apalache:CInitCode:IndInit:IndInv:1", 600),
+          ("SemaphoreInd", "apalache:CInitCode:IndInit:AtMostMax:0", 600), ("SemaphoreInd", "apalache:CInitAdmit:IndInit:IndInv:1", 600, "violation")]
 reg(P("C17", "plugins", "c17",
       mc={"quick": _LIM_Q, "thorough": _LIM_T},
       traces=[("", "LimiterTrace", "LimiterTrace.cfg")],
@@ -421,7 +423,7 @@ reg(P("C17", "plugins", "c17",
                    "the bound is burst + rate*elapsed + two requests (the algorithm clamps after charging and admits on credit)"],
       sig_reset=("kind",), sig_event=("ev", "res"),
       mutate=_c17_mutate, design_ref="DESIGN.md §6 C17",
-      technique="TLC model checking of LimiterImpl (semaphore interleavings, rate bound) + TLC trace validation with interval arithmetic"))
+      technique="TLC model checking of LimiterImpl (semaphore interleavings, rate bound), Apalache inductive invariant of the semaphore, TLC trace validation with interval arithmetic"))
 
 
 def _mux_mutate(rec):
